@@ -80,6 +80,16 @@ def source_text(case):
         if case.get("lib") == "builtin":
             fuzzy = case.get("fuzzy")
             base = "Fz" if fuzzy else "Src"
+            direct = (case.get("pick", 0) + 2 * i) % 3
+            if len(refs) == 1 and direct == 0:
+                lines.append("%s = %s(InFieldName = %s)" % (name(i), "FuzzyNot" if fuzzy else "Copy", name(refs[0])))
+                continue
+            if len(refs) == 1 and direct == 1 and not fuzzy:
+                lines.append("%s = Normalize(InFieldName = %s, StartVal = 0, EndVal = 2)" % (name(i), name(refs[0])))
+                continue
+            if len(refs) == 2 and direct != 2 and not fuzzy:
+                lines.append("%s = %s(A = %s, B = %s)" % (name(i), "AMinusB" if direct else "ADividedByB", name(refs[0]), name(refs[1])))
+                continue
             pos = (case.get("pick", 0) + i) % (len(refs) + 1)
             items = [name(c) for c in refs]
             items.insert(pos, base)  # the data source stands anywhere in the list
